@@ -228,6 +228,11 @@ def write_site_programs():
         'const_nonlit': ('const int[] a = [x0, 5, 6];', 'write(a[0]); write(a[1]); write(a[2]);'),
     }
     for aname, (decl, dump) in arrays.items():
+        # the printed value is arithmetic over byte operands: an int of up to five digits although every operand is a byte
+        for w in ('write', 'writeln'):
+            src = "empty @is_you(int n) {\n  int x0 = 3; byte bq = ((n %% 100) + 150) is byte; byte[] bs = [bq, 'z'];\n  %s\n  %s(bq * bq); %s(bs[0] * 200 + bq);\n  %s\n}\n" % (decl, w, w, dump)
+            out.append(('wsite:%s:%s:bytearith' % (aname, w), src))
+    for aname, (decl, dump) in arrays.items():
         for w in ('write', 'writeln'):
             for where in ('main', 'callee', 'callee_arg', 'block'):
                 if where == 'main':
